@@ -153,6 +153,20 @@ def conservation(case):
         if not (lo - slack <= Rg <= hi + slack):
             viol.append({"what": "greens_function_sum_outside_resistance_bracket", "level": L, "minus_sum": Rg, "lower": lo, "upper": hi,
                          "precision": prec, "setup": desc})
+    # the same footprint request with a background: the weights do not change and the concentration Green's function is offset by
+    # exactly the background (mean over the periodic domain = background - resistance / number of cells)
+    if case["idx"] % 3 == 2 and bg != 0.0:
+        _, Gb, Fb = solve.solve(St, np.zeros((ny, nx)), levels, footprint=True, precision=prec, analytic=analytic, srf_bg_conc=bg_arg,
+                                meas_pt=(0.0, 0.0))
+        _, G0, F0 = solve.solve(St, np.zeros((ny, nx)), levels, footprint=True, precision=prec, analytic=analytic, meas_pt=(0.0, 0.0))
+        counters["solver_calls"] += 2
+        counters["footprint_with_background_runs"] = counters.get("footprint_with_background_runs", 0) + 1
+        Gb, G0, Fb, F0 = (solve.as3d(a_, nl) for a_ in (Gb, G0, Fb, F0))
+        eo = float(np.max(np.abs(Gb - G0 - bg))) / (abs(bg) + float(np.max(np.abs(G0))))
+        ef_ = float(np.max(np.abs(Fb - F0))) / (float(np.max(np.abs(F0))) or 1.0)
+        if not eo <= (1e-11 if prec == "double" else 5e-6) or not ef_ <= (1e-12 if prec == "double" else 1e-6):
+            viol.append({"what": "footprint_mode_background_is_not_a_uniform_offset", "offset_rel": eo, "weights_rel": ef_, "bg": bg, "precision": prec,
+                         "setup": desc, "analytic": analytic})
     b = {f"prec:{prec}": 1, f"levels:{lkind}": 1, f"profiles:{St['pdesc'].get('closure', St['pdesc']['kind'])}": 1,
          f"modes:{St['mode_class']}": 1, "analytic" if analytic else "numeric": 1, gen.gbucket(St["G"]): 1}
     return {"evals": 3 * nl + 2, "nontrivial": bool(np.ptp(q0) > 0), "sig": f"cons|{case['idx']}", "buckets": b, "resid": resid,
